@@ -180,23 +180,24 @@ func (s *c11Sig) clone(how string) *c11Sig {
 // ---------------------------------------------------------------- world: keys, schemes, instances
 
 type c11World struct {
-	t     *testing.T
-	name  string
-	tag   string // "" = replicas 1..4; "big" = replica ids that agree in their low bits
-	n     int
-	ids   []hotstuff.ID // the replicas; ids[0] is the replica under test
-	idx   map[hotstuff.ID]int
-	keys  []hotstuff.PrivateKey
-	bases []crypto.Base
-	infos []*hotstuff.ReplicaInfo
-	cfgs  []*core.RuntimeConfig // every key holder's own configuration, and the cached instance's scheme configuration
-	later []hotstuff.ID         // key holders that are not (yet) members: see grow
-	live  *Authority            // the cached authority of the running sequence (its configuration grows too)
-	plain *Authority            // replica 1 without cache
-	cbase *c11Count             // scheme instance below replica 1's cache
-	atoms map[string]*c11Sig
-	chain *blockchain.Blockchain // holds genesis and [block]; shared by both instances
-	block *hotstuff.Block        // a view-1 block, the subject of "qc" operations
+	t      *testing.T
+	name   string
+	tag    string // "" = replicas 1..4; "big" = replica ids that agree in their low bits
+	n      int
+	ids    []hotstuff.ID // the replicas; ids[0] is the replica under test
+	idx    map[hotstuff.ID]int
+	keys   []hotstuff.PrivateKey
+	bases  []crypto.Base
+	infos  []*hotstuff.ReplicaInfo
+	cfgs   []*core.RuntimeConfig // every key holder's own configuration, and the cached instance's scheme configuration
+	later  []hotstuff.ID         // key holders that are not (yet) members: see grow
+	live   *Authority            // the cached authority of the running sequence (its configuration grows too)
+	plain  *Authority            // replica 1 without cache
+	cbase  *c11Count             // scheme instance below replica 1's cache
+	atoms  map[string]*c11Sig
+	chain  *blockchain.Blockchain // holds genesis and [block]; shared by both instances
+	block  *hotstuff.Block        // a view-1 block, the subject of "qc" operations
+	blocks []*hotstuff.Block      // block (A) and a view-2 block B: certificates for one built from votes for the other
 }
 
 func c11Key(t *testing.T, name string) hotstuff.PrivateKey {
@@ -248,6 +249,9 @@ func c11NewWorld(t *testing.T, name, tag string, members []hotstuff.ID, later ..
 	w.chain = blockchain.New(nil, logging.New("c11"), nil) // only stored blocks are looked up: no fetches
 	w.block = hotstuff.NewBlock(hotstuff.GetGenesis().Hash(), c11GenesisQC(), &clientpb.Batch{Commands: []*clientpb.Command{}}, 1, 1)
 	w.chain.Store(w.block)
+	blockB := hotstuff.NewBlock(w.block.Hash(), c11GenesisQC(), &clientpb.Batch{Commands: []*clientpb.Command{}}, 2, 2)
+	w.chain.Store(blockB)
+	w.blocks = []*hotstuff.Block{w.block, blockB}
 	w.plain = NewAuthority(cfgs[0], w.chain, w.bases[0])
 	if _, isCache := w.plain.Base.(*Cache); isCache {
 		t.Fatal("c11: authority without WithCache is wrapped in a cache")
@@ -487,8 +491,11 @@ type c11Op struct {
 	batch  map[hotstuff.ID][]byte
 	sigs   []*c11Sig
 	view   hotstuff.View
-	msgBuf *[]byte // pooled buffer behind msg (private copies only)
-	alter  string  // what was altered w.r.t. an earlier operation ("" = fresh, "same" = identical replay)
+	blk    int           // qc / vpc / anyqc / mkpc / mkqc: index of the certified block (0 = A, 1 = B)
+	pblk   int           // mkqc: the block the votes claim (and were signed) for
+	pview  hotstuff.View // mktc / mkagg: the view the timeout messages were made for
+	msgBuf *[]byte       // pooled buffer behind msg (private copies only)
+	alter  string        // what was altered w.r.t. an earlier operation ("" = fresh, "same" = identical replay)
 }
 
 type c11Res struct {
@@ -500,6 +507,9 @@ var c11FailCount = map[string]int{}
 
 // c11Block is the stored block that "qc" operations certify (set per world).
 var c11Block *hotstuff.Block
+
+// c11Blocks are the stored blocks A and B of the current world.
+var c11Blocks []*hotstuff.Block
 
 var c11Verdict = []string{"accept", "reject", "panic"}
 var c11GVerdict = []string{"VAccept", "VReject", "VPanic"}
@@ -641,7 +651,61 @@ func c11Run(a *Authority, o *c11Op) (res c11Res) {
 		return verdict(a.VerifyTimeoutCert(hotstuff.NewTimeoutCert(so, o.view)))
 	case "qc":
 		so, _ := o.sig.obj()
-		return verdict(a.VerifyQuorumCert(hotstuff.NewQuorumCert(so, c11Block.View(), c11Block.Hash())))
+		b := c11Blocks[o.blk]
+		return verdict(a.VerifyQuorumCert(hotstuff.NewQuorumCert(so, b.View(), b.Hash())))
+	case "vpc":
+		so, _ := o.sig.obj()
+		return verdict(a.VerifyPartialCert(hotstuff.NewPartialCert(so, c11Blocks[o.blk].Hash())))
+	case "anyqc":
+		so, _ := o.sig.obj()
+		b := c11Blocks[o.blk]
+		child := hotstuff.NewBlock(b.Hash(), hotstuff.NewQuorumCert(so, b.View(), b.Hash()), &clientpb.Batch{Commands: []*clientpb.Command{}}, b.View()+1, 1)
+		return verdict(a.VerifyAnyQC(&hotstuff.ProposeMsg{ID: 1, Block: child}))
+	case "mkpc":
+		pc, err := a.CreatePartialCert(c11Blocks[o.blk])
+		if err != nil {
+			return c11Res{verdict: 1}
+		}
+		returned = append(returned, pc.Signature())
+		return c11Res{sig: c11FromGo(pc.Signature(), fmt.Sprintf("CreatePartialCert(block %c) on the instance under test", 'A'+o.blk))}
+	case "mkqc":
+		var pcs []hotstuff.PartialCert
+		for _, s := range o.sigs {
+			so, _ := s.obj()
+			pcs = append(pcs, hotstuff.NewPartialCert(so, c11Blocks[o.pblk].Hash()))
+		}
+		qc, err := a.CreateQuorumCert(c11Blocks[o.blk], pcs)
+		if err != nil {
+			return c11Res{verdict: 1}
+		}
+		res = c11Res{sig: c11FromGo(qc.Signature(), fmt.Sprintf("CreateQuorumCert(block %c, votes for block %c)", 'A'+o.blk, 'A'+o.pblk))}
+		return res
+	case "mktc", "mkagg":
+		var tos []hotstuff.TimeoutMsg
+		for _, s := range o.sigs {
+			so, _ := s.obj()
+			t := hotstuff.TimeoutMsg{ID: s.ids[0], View: o.pview, SyncInfo: hotstuff.NewSyncInfoWith(c11GenesisQC())}
+			if o.op == "mktc" {
+				t.ViewSignature = so
+			} else {
+				t.MsgSignature = so
+			}
+			tos = append(tos, t)
+		}
+		if o.op == "mktc" {
+			tc, err := a.CreateTimeoutCert(o.view, tos)
+			if err != nil {
+				return c11Res{verdict: 1}
+			}
+			res = c11Res{sig: c11FromGo(tc.Signature(), fmt.Sprintf("CreateTimeoutCert(view %d, timeouts of view %d)", o.view, o.pview))}
+			return res
+		}
+		agg, err := a.CreateAggregateQC(o.view, tos)
+		if err != nil {
+			return c11Res{verdict: 1}
+		}
+		res = c11Res{sig: c11FromGo(agg.Sig(), fmt.Sprintf("CreateAggregateQC(view %d, timeouts of view %d)", o.view, o.pview))}
+		return res
 	case "aggqc":
 		so, _ := o.sig.obj()
 		qcs := map[hotstuff.ID]hotstuff.QuorumCert{}
@@ -683,7 +747,25 @@ func (o *c11Op) desc() string {
 	case "tc":
 		return fmt.Sprintf("VerifyTimeoutCert(view=%d, sig=[%s]) [%s]", o.view, o.sig.desc(), a)
 	case "qc":
-		return fmt.Sprintf("VerifyQuorumCert(stored view-1 block B, sig=[%s]) [%s]", o.sig.desc(), a)
+		return fmt.Sprintf("VerifyQuorumCert(stored block %c, sig=[%s]) [%s]", 'A'+o.blk, o.sig.desc(), a)
+	case "vpc":
+		return fmt.Sprintf("VerifyPartialCert(stored block %c, sig=[%s]) [%s]", 'A'+o.blk, o.sig.desc(), a)
+	case "anyqc":
+		return fmt.Sprintf("VerifyAnyQC(proposal whose block carries a QC for stored block %c, sig=[%s]) [%s]", 'A'+o.blk, o.sig.desc(), a)
+	case "mkpc":
+		return fmt.Sprintf("CreatePartialCert(stored block %c)", 'A'+o.blk)
+	case "mkqc", "mktc", "mkagg":
+		var p []string
+		for _, s := range o.sigs {
+			p = append(p, "["+s.desc()+"]")
+		}
+		switch o.op {
+		case "mkqc":
+			return fmt.Sprintf("CreateQuorumCert(block %c, votes for block %c: %s) [%s]", 'A'+o.blk, 'A'+o.pblk, strings.Join(p, ", "), a)
+		case "mktc":
+			return fmt.Sprintf("CreateTimeoutCert(view %d, timeouts of view %d with view signatures %s) [%s]", o.view, o.pview, strings.Join(p, ", "), a)
+		}
+		return fmt.Sprintf("CreateAggregateQC(view %d, timeouts of view %d with message signatures %s) [%s]", o.view, o.pview, strings.Join(p, ", "), a)
 	case "aggqc":
 		return fmt.Sprintf("VerifyAggregateQC(view=%d, genesis QCs of %v, sig=[%s]) [%s]", o.view, c11SortedIDs(o.batch), o.sig.desc(), a)
 	}
@@ -703,12 +785,14 @@ func (o *c11Op) shape() string {
 		return fmt.Sprintf("%d%v/%d", s.kind, s.ids, l)
 	}
 	switch o.op {
-	case "combine":
+	case "combine", "mkqc", "mktc", "mkagg":
 		var p []string
 		for _, s := range o.sigs {
 			p = append(p, sg(s))
 		}
-		return "combine" + strings.Join(p, "+")
+		return fmt.Sprintf("%s:%d:%d:%d:%d:", o.op, o.blk, o.pblk, o.view, o.pview) + strings.Join(p, "+")
+	case "qc", "vpc", "anyqc", "mkpc":
+		return fmt.Sprintf("%s:%s:%d:%s", o.op, sg(o.sig), o.blk, o.alter)
 	case "batch", "aggqc":
 		return fmt.Sprintf("%s:%s:%s:%d:%s", o.op, sg(o.sig), c11BatchDesc(o.batch), o.view, o.alter)
 	}
@@ -835,7 +919,7 @@ func (q *c11Seq) do(o *c11Op) (plain, cached c11Res) {
 		alter = "fresh"
 	}
 	v.Count(w.name + "." + o.op + "." + alter + "." + c11Verdict[plain.verdict])
-	if !called && cached.verdict == 0 && o.op != "sign" && o.op != "combine" {
+	if !called && cached.verdict == 0 && o.op != "sign" && o.op != "combine" && !strings.HasPrefix(o.op, "mk") {
 		q.hits++
 		v.Count(w.name + ".cache-hit")
 	}
@@ -851,18 +935,22 @@ func (q *c11Seq) do(o *c11Op) (plain, cached c11Res) {
 		q.failed = true
 	}
 	oracle(same, fp, what)
+	signedMsg := o.msg
+	if o.op == "mkpc" {
+		signedMsg = w.blocks[o.blk].ToBytes()
+	}
 	switch o.op {
-	case "combine":
+	case "combine", "mkqc", "mktc", "mkagg":
 		if same && plain.verdict == 0 {
-			oracle(plain.sig.equal(cached.sig), "cache.combine:different-signature", w.name+": Combine through the cache returns another signature")
+			oracle(plain.sig.equal(cached.sig), "cache."+o.op+":different-signature", w.name+": "+o.op+" through the cache returns another signature")
 		}
-	case "sign":
+	case "sign", "mkpc":
 		// premise of the theorem (sign_sound): the scheme accepts what it signed
 		if cached.verdict == 0 {
 			so, _ := cached.sig.obj()
-			err := w.bases[0].Verify(so, o.msg)
+			err := w.bases[0].Verify(so, signedMsg)
 			oracle(err == nil, "premise.sign-sound:own-signature-rejected", w.name+": the scheme rejects its own fresh signature")
-			q.signed = append(q.signed, &c11Op{op: "verify", sig: cached.sig, msg: o.msg})
+			q.signed = append(q.signed, &c11Op{op: "verify", sig: cached.sig, msg: signedMsg})
 		}
 	}
 
@@ -871,13 +959,15 @@ func (q *c11Seq) do(o *c11Op) (plain, cached c11Res) {
 		return fmt.Sprintf("(ObsV %s %s %d%%nat)", c11GVerdict[cached.verdict], gBool(called), n)
 	}
 	switch o.op {
-	case "sign":
-		q.items = append(q.items, fmt.Sprintf("(CSign %s %s, %s)", c11GBytes(o.msg), q.gosig(cached.sig), obsV()))
+	case "sign", "mkpc":
+		q.items = append(q.items, fmt.Sprintf("(CSign %s %s, %s)", c11GBytes(signedMsg), q.gosig(cached.sig), obsV()))
+	case "vpc": // no quorum check: every partial certificate for a stored block reaches Verify
+		q.items = append(q.items, fmt.Sprintf("(CVerify %s %s %s, %s)", q.gsig(o.sig), c11GBytes(w.blocks[o.blk].ToBytes()), c11GVerdict[plain.verdict], obsV()))
 	case "verify":
 		q.items = append(q.items, fmt.Sprintf("(CVerify %s %s %s, %s)", q.gsig(o.sig), c11GBytes(o.msg), c11GVerdict[plain.verdict], obsV()))
 	case "batch":
 		q.items = append(q.items, fmt.Sprintf("(CBatch %s %s %s, %s)", q.gsig(o.sig), q.gbatch(o.batch), c11GVerdict[plain.verdict], obsV()))
-	case "combine":
+	case "combine", "mkqc", "mktc", "mkagg": // the creation paths only combine: they must not touch the cache
 		var p []string
 		for _, s := range o.sigs {
 			p = append(p, q.gsig(s))
@@ -892,10 +982,10 @@ func (q *c11Seq) do(o *c11Op) (plain, cached c11Res) {
 		if o.view != 0 && o.sig.kind != c11Nil && len(o.sig.ids) >= w.plain.config.QuorumSize() {
 			q.items = append(q.items, fmt.Sprintf("(CVerify %s %s %s, %s)", q.gsig(o.sig), c11GBytes(o.view.ToBytes()), c11GVerdict[plain.verdict], obsV()))
 		}
-	case "qc":
+	case "qc", "anyqc":
 		// nil and sub-quorum certificates never reach the scheme or the cache
 		if o.sig.kind != c11Nil && len(o.sig.ids) >= w.plain.config.QuorumSize() {
-			q.items = append(q.items, fmt.Sprintf("(CVerify %s %s %s, %s)", q.gsig(o.sig), c11GBytes(w.block.ToBytes()), c11GVerdict[plain.verdict], obsV()))
+			q.items = append(q.items, fmt.Sprintf("(CVerify %s %s %s, %s)", q.gsig(o.sig), c11GBytes(w.blocks[o.blk].ToBytes()), c11GVerdict[plain.verdict], obsV()))
 		}
 	case "aggqc":
 		if o.sig.kind != c11Nil && len(o.sig.ids) >= w.plain.config.QuorumSize() {
@@ -1163,7 +1253,12 @@ func (w *c11World) alterOp(v *verifOut, o *c11Op) *c11Op {
 					return &n
 				}
 			}
-		case 1: // view
+		case 1: // view / certified block
+			if o.op == "qc" || o.op == "vpc" || o.op == "anyqc" {
+				n.blk = 1 - o.blk
+				n.alter = "block"
+				return &n
+			}
 			if o.op == "tc" || o.op == "aggqc" {
 				n.view = o.view + hotstuff.View(1+v.rng.Intn(2))
 				n.alter = "view"
@@ -1341,6 +1436,10 @@ func (w *c11World) random(v *verifOut, sequences int) {
 		q := c11NewSeq(w, v, "rnd", capDist[v.rng.Intn(len(capDist))])
 		length := 5 + v.rng.Intn(10)
 		for j := 0; j < length; j++ {
+			if v.rng.Intn(14) == 0 { // a certificate is assembled from parts by the authorities under test
+				q.episode(v.rng.Intn(3), v.rng.Intn(2) == 0, w.randSubset(v, 2), v.rng.Intn(3) == 0)
+				continue
+			}
 			var o *c11Op
 			r := v.rng.Intn(100)
 			switch {
@@ -1580,7 +1679,7 @@ func c11Growth(t *testing.T, v *verifOut, name string, worlds int) {
 			later = []hotstuff.ID{2 + 1<<8, 2 + 1<<16}
 		}
 		w := c11NewWorld(t, name, "grow", []hotstuff.ID{1, 2, 3, 4}, later...)
-		c11Block = w.block
+		c11Block, c11Blocks = w.block, w.blocks
 		capacity := []int{1, 2, 3, 8}[v.rng.Intn(4)]
 		q := c11NewSeq(w, v, "grw", capacity)
 		p := later[0]
@@ -1820,6 +1919,114 @@ func (w *c11World) concurrent(v *verifOut, rounds, workers, opsPerWorker int) {
 	}
 }
 
+// episode: the parts of a certificate are verified one by one (so the cache knows them), the
+// authority creates the certificate from them -- for the block / view they were made for, or for
+// another one -- and the result is verified through every path.  Creation goes through the
+// authorities under test (cached and uncached twin), not through a separate signer.
+func (q *c11Seq) episode(kind int, mismatch bool, signers []hotstuff.ID, withOwn bool) {
+	w := q.w
+	same := func(o *c11Op) *c11Op { c := *o; c.alter = "same"; return &c }
+	switch kind {
+	case 0: // quorum certificate
+		pb := q.v.rng.Intn(2)
+		cb := pb
+		alter := ""
+		if mismatch {
+			cb, alter = 1-pb, "created-for-other-block"
+		}
+		var parts []*c11Sig
+		for _, id := range signers {
+			parts = append(parts, w.atom(id, w.blocks[pb].ToBytes()))
+		}
+		if withOwn { // the authority's own vote, made through the cache
+			_, own := q.do(&c11Op{op: "mkpc", blk: pb})
+			if own.sig != nil {
+				parts = append([]*c11Sig{own.sig}, parts...)
+				if len(parts) > 1 && parts[1].ids[0] == own.sig.ids[0] {
+					parts = append(parts[:1], parts[2:]...)
+				}
+			}
+		}
+		for _, p := range parts {
+			q.do(&c11Op{op: "vpc", sig: p, blk: pb})
+		}
+		res, _ := q.do(&c11Op{op: "mkqc", sigs: parts, blk: cb, pblk: pb, alter: alter})
+		if res.sig != nil {
+			o := &c11Op{op: "qc", sig: res.sig, blk: cb, alter: alter}
+			q.do(o)
+			q.do(&c11Op{op: "anyqc", sig: res.sig, blk: cb, alter: alter})
+			q.do(&c11Op{op: "vpc", sig: res.sig, blk: cb, alter: alter})
+			q.do(same(o))
+			q.do(&c11Op{op: "qc", sig: res.sig, blk: pb})
+		}
+	case 1: // timeout certificate
+		pv := hotstuff.View(1 + q.v.rng.Intn(6))
+		cv := pv
+		alter := ""
+		if mismatch {
+			cv, alter = pv+hotstuff.View(1+q.v.rng.Intn(4)), "created-for-other-view"
+		}
+		var parts []*c11Sig
+		for _, id := range signers {
+			parts = append(parts, w.atom(id, pv.ToBytes()))
+		}
+		for _, p := range parts {
+			q.do(&c11Op{op: "verify", sig: p, msg: pv.ToBytes()})
+		}
+		res, _ := q.do(&c11Op{op: "mktc", sigs: parts, view: cv, pview: pv, alter: alter})
+		if res.sig != nil {
+			o := &c11Op{op: "tc", sig: res.sig, view: cv, alter: alter}
+			q.do(o)
+			q.do(&c11Op{op: "verify", sig: res.sig, msg: cv.ToBytes(), alter: alter})
+			q.do(same(o))
+			q.do(&c11Op{op: "tc", sig: res.sig, view: pv})
+		}
+	default: // aggregate QC
+		pv := hotstuff.View(1 + q.v.rng.Intn(6))
+		cv := pv
+		alter := ""
+		if mismatch {
+			cv, alter = pv+1, "created-for-other-view"
+		}
+		var parts []*c11Sig
+		ids := map[hotstuff.ID][]byte{}
+		for _, id := range signers {
+			parts = append(parts, w.atom(id, c11TimeoutBytes(id, pv)))
+			ids[id] = nil
+		}
+		for i, p := range parts {
+			q.do(&c11Op{op: "verify", sig: p, msg: c11TimeoutBytes(signers[i], pv)})
+		}
+		res, _ := q.do(&c11Op{op: "mkagg", sigs: parts, view: cv, pview: pv, alter: alter})
+		if res.sig != nil {
+			o := &c11Op{op: "aggqc", sig: res.sig, batch: ids, view: cv, alter: alter}
+			q.do(o)
+			q.do(same(o))
+			q.do(&c11Op{op: "aggqc", sig: res.sig, batch: ids, view: pv})
+		}
+	}
+}
+
+// certs: certificate episodes of every kind, matching and mismatching, quorum and sub-quorum,
+// with and without the authority's own vote, at capacities that do and do not hold all parts.
+func (w *c11World) certs(v *verifOut) {
+	for _, capacity := range []int{1, 3, 8, 100} {
+		for kind := 0; kind < 3; kind++ {
+			for _, n := range []int{2, 3, 4} {
+				q := c11NewSeq(w, v, "crt", capacity)
+				signers := w.ids[:n]
+				if kind == 0 {
+					signers = w.ids[4-n:]
+				}
+				q.episode(kind, false, signers, false)
+				q.episode(kind, true, signers, kind == 0 && n == 3)
+				q.episode(kind, false, signers, kind == 0)
+				q.finish()
+			}
+		}
+	}
+}
+
 // hibits: a verification with the genuine labels (remembered), then the same signature with one
 // or all signer labels replaced by ids that differ only in high bits (id + m*2^k for every k in
 // 8..31, resp. 8..20 for BLS bitfields), then the genuine one again.  Single signatures,
@@ -1908,9 +2115,10 @@ func TestVerifC11(t *testing.T) {
 	search := os.Getenv("VERIF_SEARCH") != ""
 	for _, name := range []string{crypto.NameEDDSA, crypto.NameECDSA, crypto.NameBLS12} {
 		w := c11NewWorld(t, name, "", []hotstuff.ID{1, 2, 3, 4})
-		c11Block = w.block
+		c11Block, c11Blocks = w.block, w.blocks
 		w.boundary(v)
 		w.hibits(v)
+		w.certs(v)
 		w.concurrent(v, v.Pick(4, 40), 6, v.Pick(12, 40))
 		switch name {
 		case crypto.NameBLS12:
@@ -1951,7 +2159,7 @@ func TestVerifC11(t *testing.T) {
 			big = []hotstuff.ID{1, 1 + 1<<31, 1 + 1<<15, 1 + 1<<16 + 1<<24}
 		}
 		w := c11NewWorld(t, name, "big", big)
-		c11Block = w.block
+		c11Block, c11Blocks = w.block, w.blocks
 		w.hibits(v)
 		w.random(v, v.Pick(map[string]int{crypto.NameBLS12: 15}[name]+25, 600))
 	}
